@@ -110,22 +110,24 @@ var plans = map[string]*Plan{
 	"C06": {
 		Level: "exploration",
 		Rule: "C01's history generator with reclamation on in 80% of cases and extra weight on multi-block writes that straddle blocks owned by different chain files; every quiescent point compares revert-on-copy of every retained user-created snapshot with its image at creation, in-place reverts compare the live volume with the image; " +
-			"non-trivial = >=1 unaligned write, >=1 chain mutation and >=1 reopen/reload; distinct = hash of the op-kind/alignment-class sequence",
+			"non-trivial = >=1 unaligned write, >=1 chain mutation and >=1 reopen/reload; distinct = hash of the op-kind/alignment-class sequence" + "; on real processes (cluster engine, scenario snaplife): 16-19 user snapshots cut into a write stream through the controller REST API, all but 2-3 deleted through DELETE deleteSnapshot (the checkpoint must be refused), one replica killed and rebuilt so that the checkpoint moves above them, then the replicas' own background cleaners (60 s ticker) merge them while writes go on - every chain member that vanishes is checked against the selection predicate of the statement on the replica's last sampled REST state, live read at every reader position, stored live image and every retained user snapshot (revert-on-copy, every replica) are compared with the model; then Controller.Revert through REST to a retained user snapshot and a full read (thorough: also a full restart before it: retained members and attributes survive)",
 		Assumptions: rengAssume,
 		Floor:       map[string]int64{"snapshot_images_compared": 100, "writes": 200},
 		Jobs: func(tier string) []Job {
-			return jobs("reng", 16, tierN(tier, 6, 150), "", time.Duration(tierN(tier, 10, 80))*time.Minute)
+			js := jobs("reng", 16, tierN(tier, 6, 150), "", time.Duration(tierN(tier, 10, 80))*time.Minute)
+			return append(js, snapLife(tier, 1, 3)...)
 		},
 		CrashSig: rengCrash("C06"),
 	},
 	"C11": {
 		Level: "exploration",
 		Rule: "histories biased to long chains with user/auto/marked-removed members and a checkpoint at varying positions; every answer of the real cleaner filter (GetDeleteCandidateChain) is checked name by name against the predicate of the property; deletions go through the cleaner route (candidate -> PrepareRemoveDisk -> fold -> RemoveDiffDisk) and the user route (mark removed); " +
-			"full live read and revert-on-copy of every retained user snapshot are compared before/after; two workers additionally run the real background cleaner (sync.InternalSnapshotCleaner, 60 s ticker, checkpoint from a stub of GET /v1/checkpoint, coalesce through the real sync-agent router re-executing sfold) for one round (thorough: two) with the first fold made to fail; non-trivial as C01; distinct = hash of the op-kind sequence",
+			"full live read and revert-on-copy of every retained user snapshot are compared before/after; two workers additionally run the real background cleaner (sync.InternalSnapshotCleaner, 60 s ticker, checkpoint from a stub of GET /v1/checkpoint, coalesce through the real sync-agent router re-executing sfold) for one round (thorough: two) with the first fold made to fail; non-trivial as C01; distinct = hash of the op-kind sequence" + "; on real processes (cluster engine, scenario snaplife): 16-19 user snapshots cut into a write stream through the controller REST API, all but 2-3 deleted through DELETE deleteSnapshot (the checkpoint must be refused), one replica killed and rebuilt so that the checkpoint moves above them, then the replicas' own background cleaners (60 s ticker) merge them while writes go on - every chain member that vanishes is checked against the selection predicate of the statement on the replica's last sampled REST state, live read at every reader position, stored live image and every retained user snapshot (revert-on-copy, every replica) are compared with the model; then Controller.Revert through REST to a retained user snapshot and a full read (thorough: also a full restart before it: retained members and attributes survive)",
 		Assumptions: rengAssume,
-		Floor:       map[string]int64{"candidate_queries": 50, "removals": 10, "snapshot_images_compared": 50, "cleaner_rounds": 1},
+		Floor:       map[string]int64{"candidate_queries": 50, "removals": 10, "snapshot_images_compared": 50, "cleaner_rounds": 1, "snaplife_deletion_phases": 1},
 		Jobs: func(tier string) []Job {
-			return jobs("reng", 16, tierN(tier, 6, 150), "", time.Duration(tierN(tier, 10, 80))*time.Minute)
+			js := jobs("reng", 16, tierN(tier, 6, 150), "", time.Duration(tierN(tier, 10, 80))*time.Minute)
+			return append(js, snapLife(tier, 2, 4)...)
 		},
 		CrashSig: rengCrash("C11"),
 	},
@@ -148,11 +150,15 @@ var plans = map[string]*Plan{
 	"C12": {
 		Level: "exploration",
 		Rule: "sequences of 15-45 management requests: valid ones (snapshot, cleaner/raw removal, mark-removed, revert, resize, checkpoint) mixed with requests that must change nothing (remove/prepare-remove/revert/replace of head, latest, base, unknown, prefix-less and metadata-file names; duplicate snapshot names; shrink; chain surgery in WO mode; everything on a closed replica) and orphan clean-up after reverts; after every request chain == model chain, every member has data+metadata file, attributes and full read unchanged; close+open reproduces chain, attributes, size, checkpoint and data; " +
-			"non-trivial = >=1 unaligned write, >=1 chain mutation, >=1 reopen; distinct = hash of the op-kind sequence",
+			"non-trivial = >=1 unaligned write, >=1 chain mutation, >=1 reopen; distinct = hash of the op-kind sequence; thorough tier additionally runs the real-process snapshot life-cycle scenario (see C11) with a full restart of all replicas: retained chain members keep their order and attributes",
 		Assumptions: rengAssume,
 		Floor:       map[string]int64{"bad_requests": 100, "chain_checks": 300},
 		Jobs: func(tier string) []Job {
-			return jobs("reng", 16, tierN(tier, 8, 200), "", time.Duration(tierN(tier, 10, 90))*time.Minute)
+			js := jobs("reng", 16, tierN(tier, 8, 200), "", time.Duration(tierN(tier, 10, 90))*time.Minute)
+			if tier == "thorough" {
+				js = append(js, snapLife(tier, 0, 2)...)
+			}
+			return js
 		},
 		CrashSig: rengCrash("C12"),
 	},
@@ -266,6 +272,15 @@ var plans = map[string]*Plan{
 	"C19": clusterPlan("C19", 5, 1, 15, 4, map[string]int64{"clones_completed": 2, "clone_images_compared": 2, "clone_status_samples": 50, "failed_clones_observed": 1},
 		"two real volumes per scenario: a source (RF 1-2) with 2-5 user snapshots and further writes after the cloned snapshot S (S at every chain position across cases), and a new volume whose only replica is started with --type clone; variants (cycled over the cases): none, writes on the source during the copy, SIGKILL of the source replica(s) during the file sync, SIGKILL of the clone during the copy (each followed by a supervisor restart), and a clone of a snapshot that does not exist at the source (must end in an error status and never be served); "+
 			"the clone replica's REST state is sampled every 15 ms (mode RW implies status completed; the new controller holds its lock while polling so the replica side is where intermediate states are visible); at completion the full read through the new controller must equal the model image of S and revert-on-copy of the source directory, the clone's revision counter must equal the one recorded for S, and the clone must accept writes; distinct = configuration + event count"),
+}
+
+// snapLife: the snapshot life-cycle scenario on real processes (cluster engine): q/t workers in quick/thorough.
+// quick: one cleaner merge per replica awaited, no full restart; thorough: two merges and a full restart, 2 cases.
+func snapLife(tier string, q, t int) []Job {
+	if tier == "thorough" {
+		return jobs("cluster", t, 2, "bin={BIN},scen=snaplife,merges=2,restart=1", 150*time.Minute)
+	}
+	return jobs("cluster", q, 1, "bin={BIN},scen=snaplife,merges=1", 20*time.Minute)
 }
 
 // clusterPlan: q/t = workers in quick/thorough, cases per worker.
